@@ -441,7 +441,11 @@ def run(ctx):
     dis, _, model = ctx.differential("notes-link", reqs, impl_out=wild_c, nontrivial=nontrivial)
 
     # (2) validation of the GNU ld spec text against the real GNU ld, on the region the spec covers
-    idx = [i for i, (c, *_r) in enumerate(info) if c.in_uint32_region() and not ld_c[i].startswith("skipped")]
+    # GNU ld 2.40 itself fails ("failed to create GNU property section") when -z x86-64-vN has to create the note and no input
+    # carries one: the oracle has no answer there
+    ld_broken = [i for i in range(len(info)) if "failed to create GNU property section" in ld_c[i]]
+    ctx.count("oracle", "gnu-ld-fails-to-create-property-section", len(ld_broken))
+    idx = [i for i, (c, *_r) in enumerate(info) if c.in_uint32_region() and not ld_c[i].startswith("skipped") and i not in set(ld_broken)]
     greqs = [info[i][0].request("notes-gnu") for i in idx]
     ctx.differential("gnu-spec-vs-ld", greqs, impl_out=[ld_c[i] for i in idx], nontrivial=lambda l, a, b: True)
 
